@@ -320,6 +320,25 @@ def run_job(job, tu, safety, scratch, want_trace=False, only_props=None):
         if job.get('backend') == 'portfolio':
             rc, o, e, t, won = race(cbmc, job.get('portfolio', ['sat', 'cvc5', 'z3']), job.get('timeout', 600))
             r['backend_used'] = won
+        elif want_trace:
+            # traces of machine jobs run to gigabytes of JSON: cbmc writes to a file and jq keeps only the input steps (bounded memory in this process)
+            rawf = os.path.join(scratch, 'trace_%s_%d.json' % (re.sub(r'[^A-Za-z0-9_.-]', '_', job['id'])[:80], os.getpid()))
+            t0_ = time.time()
+            with open(rawf, 'wb') as fh:
+                import signal
+                pr = subprocess.Popen(cbmc, stdout=fh, stderr=subprocess.DEVNULL, preexec_fn=os.setsid)
+                try: rc = pr.wait(timeout=job.get('timeout', 600) * 2)
+                except subprocess.TimeoutExpired:
+                    try: os.killpg(pr.pid, signal.SIGKILL)
+                    except Exception: pass
+                    pr.wait(); rc = -9
+            t = time.time() - t0_; e = ''
+            flt = '[.[] | if .result then {result: [.result[] | {property, description, status, sourceLocation, trace: (if .trace then [.trace[] | select(.stepType == "input") | {stepType, inputID, values}] else null end)}]} else (if .messageText then {messageText} elif .cProverStatus then {cProverStatus} else empty end) end]'
+            jr = subprocess.run(['jq', '-c', flt, rawf], stdout=subprocess.PIPE, stderr=subprocess.PIPE)
+            o = jr.stdout.decode('utf-8', 'replace') if jr.returncode == 0 else ''
+            try: os.remove(rawf)
+            except OSError: pass
+            r['backend_used'] = job.get('backend', 'sat')
         else:
             rc, o, e, t = sh(cbmc, timeout=job.get('timeout', 600), memlimit_gb=job.get('mem_gb', 12))
             r['backend_used'] = job.get('backend', 'sat')
@@ -342,8 +361,13 @@ def run_job(job, tu, safety, scratch, want_trace=False, only_props=None):
             if desc.startswith('C11: HFSM2_ASSERT') and job.get('assert_props'): props_ = props_ + list(job['assert_props'])   # the library's own assertions also decide these properties in this job
             ob = {'name': name, 'desc': desc, 'status': res.get('status'), 'props': props_,
                   'function': (res.get('sourceLocation') or {}).get('function', ''), 'line': (res.get('sourceLocation') or {}).get('line', '')}
-            if res.get('status') == 'FAILURE' and 'trace' in res:
+            if res.get('status') == 'FAILURE' and res.get('trace') is not None:
                 ob['inputs'] = extract_inputs(res['trace'])
+            if ob['status'] == 'SUCCESS' and props_ == ['C11']:
+                # CBMC's own safety obligations run to tens of thousands per job: discharged ones are counted, not kept (bounded memory)
+                r['bulk_ok'] = r.get('bulk_ok', 0) + 1
+                if len(r.setdefault('bulk_samples', [])) < 2: r['bulk_samples'].append(ob)
+                continue
             r['obligations'].append(ob)
     except ToolLimit as ex:
         r['error'] = str(ex)
@@ -481,7 +505,11 @@ def run_check(prop, a, jobs, findings, scratch, seed, t_start):
         # paths that a particular case key does not take; the first canary of every harness follows its assumptions directly)
         if can and not fired:
             problems.append('job %s: no canary is reachable (%s): the harness assumptions are contradictory (vacuous proof)' % (j['id'], '; '.join(ob['desc'] for ob in can)[:300]))
-        if not mine and not j.get('safety_only'):
+        bulk = r.get('bulk_ok', 0) if prop == 'C11' else 0
+        total += bulk; discharged += bulk
+        if bulk and len(samples) < 6:
+            for ob in r.get('bulk_samples', [])[:1]: samples.append({'job': j['id'], 'obligation': ob['desc'], 'in': ob['function'][:120], 'status': 'discharged'})
+        if not mine and not bulk and not j.get('safety_only'):
             problems.append('job %s generated no obligation for %s' % (j['id'], prop))
         for ob in unw:
             total += 1
@@ -515,7 +543,7 @@ def run_check(prop, a, jobs, findings, scratch, seed, t_start):
         for j, ob in violations:
             if j['id'] not in [x['id'] for x in first_jobs]: first_jobs.append(j)
             if len(first_jobs) >= 6: break
-        with concurrent.futures.ThreadPoolExecutor(NCPU) as ex:
+        with concurrent.futures.ThreadPoolExecutor(3) as ex:
             for j, rr in zip(first_jobs, ex.map(lambda jj: run_job(jj, jj['_tu'], safety or jj.get('safety_always', False), scratch, want_trace=True), first_jobs)):
                 traced[j['id']] = rr
         for j, ob in violations:
@@ -574,7 +602,7 @@ def write_evidence(prop, tier, seed, jobs, results, tus, carriers, tv, total, di
             'functions_under_contract': sorted(carriers)[:80],
             'functions_under_contract_count': len(carriers),
             'jobs': [{'id': j['id'], 'mode': j.get('mode', 'harness'), 'entry': j['entry'], 'defs': j.get('defs'), 'cbmc_s': round(r['times'].get('cbmc', 0), 1),
-                      'solver_s': round(r['times'].get('solver', 0), 2), 'obligations': len([o for o in r['obligations'] if prop in o['props'] or 'UNWIND' in o['props']]),
+                      'solver_s': round(r['times'].get('solver', 0), 2), 'obligations': len([o for o in r['obligations'] if prop in o['props'] or 'UNWIND' in o['props']]) + (r.get('bulk_ok', 0) if prop == 'C11' else 0),
                       'backend': r.get('backend_used', j.get('backend', 'sat')), 'engine': 'path-wise' if j.get('paths') else 'merging'} for j, r in zip(jobs, results)][:400],
             'case_keys': sorted(set(j['case_key'] for j in jobs if j.get('case_key')))[:400],
             'exhaustive': bool(meta.get('exhaustive_case_split', False)),
